@@ -550,7 +550,7 @@ def to_fpm_and_back_backprop(wavefunction, dx, wavelength, efl, fpm, fpm_dx=None
         fpm_samples = fpm.shape
 
     # do not take complex conjugate of reals (no-op, but numpy still does it)
-    if np.iscomplexobj(fpm.dtype):
+    if np.iscomplexobj(fpm):
         fpm = fpm.conj()
 
     Ebbar = unfocus_fixed_sampling_backprop(wavefunction, fpm_dx, efl, wavelength, dx, fpm_samples)
